@@ -12,6 +12,7 @@ import (
 	"go/types"
 	"os"
 	"sort"
+	"strings"
 
 	"golang.org/x/tools/go/ssa"
 )
@@ -35,15 +36,10 @@ var boundsReviewed = map[string]string{
 	"eval.evalArrayIndexExpression | index of a slice":                "0 <= idx <= Len(array)-1 was tested just above and Elements(array) has Len(array) elements",
 	"extensions.createCmd | constant index 0 of a slice":              "cmdArgs has one entry per argument and every extension using it (exec, run) is registered with MinArgs 1",
 	"extensions.createCmd | constant low bound 1 of a slice":          "cmdArgs has one entry per argument and every extension using it (exec, run) is registered with MinArgs 1",
-	"object.(*BigMap).Delete | low bound of a slice":                  "idx comes from get() with found == true, i.e. from slices.BinarySearchFunc with ok: 0 <= idx < len(m.kv), hence idx+1 <= len and len-1 >= 0",
-	"object.(*BigMap).Delete | low bound of a slice #2":               "idx comes from get() with found == true, i.e. from slices.BinarySearchFunc with ok: 0 <= idx < len(m.kv), hence idx+1 <= len and len-1 >= 0",
-	"object.(*BigMap).Delete | high bound of a slice":                 "idx comes from get() with found == true, i.e. from slices.BinarySearchFunc with ok: 0 <= idx < len(m.kv), hence idx+1 <= len and len-1 >= 0",
 	"object.(*BigMap).Range | low bound of a slice":                   "the only caller (object.Range from evalIndexRangeExpression) passes 0 <= l <= r <= Len() of this map",
 	"object.(*BigMap).Range | high bound of a slice":                  "the only caller (object.Range from evalIndexRangeExpression) passes 0 <= l <= r <= Len() of this map",
 	"object.(*BigMap).Range | low bound of a slice #2":                "the only caller (object.Range from evalIndexRangeExpression) passes 0 <= l <= r <= Len() of this map",
 	"object.(*BigMap).Range | high bound of a slice #2":               "the only caller (object.Range from evalIndexRangeExpression) passes 0 <= l <= r <= Len() of this map",
-	"object.(*BigMap).Set | index of a slice":                         "index returned by slices.BinarySearchFunc with ok == true: 0 <= i < len(m.kv)",
-	"object.(*BigMap).get | index of a slice":                         "index returned by slices.BinarySearchFunc with ok == true: 0 <= i < len(m.kv)",
 	"object.(*Environment).Info | index of a slice #2":                "allKeys is made with e.depth entries (depth of the innermost scope) and the loop walks outwards, so 1 <= e.depth <= len on this branch (C07.R8 keeps depth = outer.depth + 1)",
 	"object.(BigArray).Less | index of a slice":                       "sort.Interface contract: called by package sort with 0 <= i, j < Len()",
 	"object.(BigArray).Less | index of a slice #2":                    "sort.Interface contract: called by package sort with 0 <= i, j < Len()",
@@ -223,6 +219,9 @@ func (bp *boundProver) lenLB(x ssa.Value, at *ssa.BasicBlock, depth int, seen ma
 		if _, isSlice := x.(*ssa.Slice); !isSlice {
 			return k
 		}
+	}
+	if bp.foundOver(x, at) {
+		up(1) // a key was found in it
 	}
 	// facts on len(x)
 	for _, cc := range controlling(at) {
@@ -426,6 +425,12 @@ func (bp *boundProver) ltLen(i, x ssa.Value, at *ssa.BasicBlock, strict bool, de
 		return true
 	}
 	iv := stripConvert(i)
+	// the position a binary search over x returned: <= len(x), and < len(x) where the key was found
+	if si, ok := bp.searchPos(iv); ok && bp.searchedSeq(si, x) {
+		if !strict || bp.foundAt(si, at) {
+			return true
+		}
+	}
 	// comparisons with len(x)
 	check := func(cc ctrlCond, v ssa.Value) bool {
 		bin, ok := cc.Cond.(*ssa.BinOp)
@@ -494,6 +499,11 @@ func (bp *boundProver) ltLen(i, x ssa.Value, at *ssa.BasicBlock, strict bool, de
 				return off >= 1
 			}
 			return off >= 0
+		}
+		if v.Op == token.ADD && !strict {
+			if k, ok := constInt(v.Y); ok && k == 1 {
+				return bp.ltLen(v.X, x, at, true, depth+1, seen)
+			}
 		}
 		if v.Op == token.SUB {
 			if k, ok := constInt(v.Y); ok && k >= 0 {
@@ -924,4 +934,202 @@ func (c *Ctx) checkNoClearingOfSharedStorage(r *Report, rule string) {
 	if n == 0 {
 		r.OkWhy(rule, "object", "no cell-clearing library call on container storage", "", "deletions copy down and reslice: vacated cells keep their old content, which the other values covering them still own")
 	}
+}
+
+// ---- positions returned by a binary search ----
+//
+// slices.BinarySearchFunc(s, ...) returns (i, found) with 0 <= i <= len(s), and found implies i < len(s). A module
+// function whose every return hands on such a pair computed on a field of its first parameter (BigMap.get:
+// `return v, found, idx`) gives its callers the same facts about that field of the argument.
+
+type searchInfo struct {
+	seq    ssa.Value // the slice searched, when it is a value of this function (direct search)
+	base   ssa.Value // or: the struct pointer whose field `field` was searched (through a summarised callee)
+	field  int
+	tuple  ssa.Value // the call whose results these are
+	bfound int       // index of the bool result that means "present"
+}
+
+func isBinarySearch(call *ssa.Call) bool {
+	obj := calleeObj(call)
+	return obj != nil && obj.Pkg() != nil && obj.Pkg().Path() == "slices" && strings.HasPrefix(obj.Name(), "BinarySearch") && len(call.Common().Args) >= 1
+}
+
+// searchSummary: callee returns, at result index ri, the position of a binary search over field f of its first
+// parameter, and at bi the found flag (or the constant false).
+func (bp *boundProver) searchSummary(callee *ssa.Function) (ri, bi, field int, ok bool) {
+	if callee == nil || len(callee.Blocks) == 0 || len(callee.Params) == 0 {
+		return 0, 0, 0, false
+	}
+	ri, bi, field = -1, -1, -1
+	good, n := true, 0
+	eachInstr(callee, func(in ssa.Instruction) {
+		ret, isRet := in.(*ssa.Return)
+		if !isRet || !good {
+			return
+		}
+		n++
+		pos, fnd := -1, -1
+		var call *ssa.Call
+		for i, res := range ret.Results {
+			ex, isEx := res.(*ssa.Extract)
+			if !isEx {
+				continue
+			}
+			c2, isCall := ex.Tuple.(*ssa.Call)
+			if !isCall || !isBinarySearch(c2) {
+				continue
+			}
+			call = c2
+			if ex.Index == 0 {
+				pos = i
+			} else {
+				fnd = i
+			}
+		}
+		if pos < 0 || call == nil {
+			good = false
+			return
+		}
+		if fnd < 0 { // the flag may be a constant on this return: false, or true on the edge where the search found the key
+			for i, res := range ret.Results {
+				k, isK := res.(*ssa.Const)
+				if !isK {
+					continue
+				}
+				bv, isB := constBool(k)
+				if !isB {
+					continue
+				}
+				if !bv {
+					fnd = i
+					continue
+				}
+				for _, cc := range controlling(ret.Block()) {
+					if ex, isEx := cc.Cond.(*ssa.Extract); isEx && ex.Tuple == ssa.Value(call) && ex.Index == 1 && cc.Edge == 0 {
+						fnd = i
+					}
+				}
+			}
+		}
+		ld, isLd := call.Common().Args[0].(*ssa.UnOp)
+		if !isLd {
+			good = false
+			return
+		}
+		fa, isFA := ld.X.(*ssa.FieldAddr)
+		if !isFA || fa.X != ssa.Value(callee.Params[0]) || fnd < 0 {
+			good = false
+			return
+		}
+		if (ri >= 0 && ri != pos) || (bi >= 0 && bi != fnd) || (field >= 0 && field != fa.Field) {
+			good = false
+			return
+		}
+		ri, bi, field = pos, fnd, fa.Field
+	})
+	// the callee must not change the field itself
+	eachInstr(callee, func(in ssa.Instruction) {
+		if st, isSt := in.(*ssa.Store); isSt {
+			if fa, isFA := st.Addr.(*ssa.FieldAddr); isFA && fa.Field == field && fa.X == ssa.Value(callee.Params[0]) {
+				good = false
+			}
+		}
+	})
+	return ri, bi, field, good && n > 0 && ri >= 0
+}
+
+func (bp *boundProver) searchPos(v ssa.Value) (searchInfo, bool) {
+	ex, ok := stripConvert(v).(*ssa.Extract)
+	if !ok {
+		return searchInfo{}, false
+	}
+	call, ok := ex.Tuple.(*ssa.Call)
+	if !ok {
+		return searchInfo{}, false
+	}
+	if isBinarySearch(call) && ex.Index == 0 {
+		return searchInfo{seq: call.Common().Args[0], tuple: call, bfound: 1}, true
+	}
+	callee := call.Common().StaticCallee()
+	if callee == nil || !isModuleSSA(callee) || len(call.Common().Args) == 0 {
+		return searchInfo{}, false
+	}
+	ri, bi, field, ok := bp.searchSummary(callee)
+	if !ok || ex.Index != ri {
+		return searchInfo{}, false
+	}
+	return searchInfo{base: call.Common().Args[0], field: field, tuple: call, bfound: bi}, true
+}
+
+// searchedSeq: the search of si was over the sequence x (same value, or the same field of the same struct, not
+// stored to in between).
+func (bp *boundProver) searchedSeq(si searchInfo, x ssa.Value) bool {
+	if si.seq != nil {
+		return bp.sameSeq(si.seq, x)
+	}
+	ld, ok := x.(*ssa.UnOp)
+	if !ok {
+		return false
+	}
+	fa, ok := ld.X.(*ssa.FieldAddr)
+	if !ok || fa.Field != si.field || !(fa.X == si.base || sameValue(fa.X, si.base)) {
+		return false
+	}
+	// no store to that field between the search and the use
+	call := si.tuple.(*ssa.Call)
+	clean := true
+	eachInstr(ld.Parent(), func(in ssa.Instruction) {
+		if st, isSt := in.(*ssa.Store); isSt {
+			if sfa, isFA := st.Addr.(*ssa.FieldAddr); isFA && sfa.Field == si.field && namedStruct(sfa.X.Type()) != nil && namedStruct(fa.X.Type()) != nil && namedStruct(sfa.X.Type()).Obj() == namedStruct(fa.X.Type()).Obj() {
+				if between(call, st, ld) {
+					clean = false
+				}
+			}
+		}
+	})
+	return clean
+}
+
+// foundAt: where block `at` executes the search of si is known to have found its key.
+func (bp *boundProver) foundAt(si searchInfo, at *ssa.BasicBlock) bool {
+	for _, cc := range controlling(at) {
+		cond, edge := cc.Cond, cc.Edge
+		if u, ok := cond.(*ssa.UnOp); ok && u.Op == token.NOT {
+			cond, edge = u.X, 1-edge
+		}
+		if ex, ok := cond.(*ssa.Extract); ok && ex.Tuple == si.tuple && ex.Index == si.bfound && edge == 0 {
+			return true
+		}
+	}
+	return false
+}
+
+// foundOver: some search over the sequence x is known to have found its key where `at` executes (so x is not empty).
+func (bp *boundProver) foundOver(x ssa.Value, at *ssa.BasicBlock) bool {
+	for _, cc := range controlling(at) {
+		cond, edge := cc.Cond, cc.Edge
+		if u, ok := cond.(*ssa.UnOp); ok && u.Op == token.NOT {
+			cond, edge = u.X, 1-edge
+		}
+		ex, ok := cond.(*ssa.Extract)
+		if !ok || edge != 0 {
+			continue
+		}
+		call, ok := ex.Tuple.(*ssa.Call)
+		if !ok {
+			continue
+		}
+		// the position result of the same call
+		for _, ref := range *call.Referrers() {
+			pe, ok := ref.(*ssa.Extract)
+			if !ok {
+				continue
+			}
+			if si, ok := bp.searchPos(pe); ok && si.bfound == ex.Index && bp.searchedSeq(si, x) {
+				return true
+			}
+		}
+	}
+	return false
 }
